@@ -8,6 +8,6 @@ SETS=${@:-$(ls -d /verif/seeded/refactors*)}
 mkdir -p $OUT
 for S in $SETS; do
   REV=$(cat $S/BASE_REV); T=$(basename $S)
-  ls $S/C*/patch_R*.diff | xargs -P 12 -I{} sh -c 'f={}; p=$(echo $f | sed "s|.*/\(C[0-9]*\)/patch_\(R[0-9]\).diff|\1-\2|"); SEEDCHECK_REV='$REV' timeout 1500 /venv/bin/python /verif/tools/seedcheck.py $f > '$OUT'/'$T'-$p.txt 2>&1'
+  ls $S/C*/patch_R*.diff | xargs -P 14 -I{} sh -c 'f={}; p=$(echo $f | sed "s|.*/\(C[0-9]*\)/patch_\(R[0-9]\).diff|\1-\2|"); SEEDCHECK_REV='$REV' timeout 1500 /venv/bin/python /verif/tools/seedcheck.py $f > '$OUT'/'$T'-$p.txt 2>&1'
   for f in $OUT/$T-C*.txt; do t=$(basename $f .txt | sed "s/^$T-//"); grep "VIOLATION\|UNDECIDED\|PATCH\|Traceback" $f | { if [ "$REV" = c27de59 ]; then grep -v "UNIT-2 ConvolvedFluxes.interpolate clamp bound"; else cat; fi; } | sed "s/^/$T $t: /" | cut -c1-340; done
 done
